@@ -35,6 +35,7 @@ type World struct {
 	names          sync.Map // *ssa.Function -> string
 	plain          sync.Map // functions that are simply executed from SSA
 	regIdx         sync.Map
+	byName         sync.Map // printed name -> *ssa.Function (reflect model helpers)
 }
 
 // regIndex numbers the SSA values of a function (params, free variables, value-defining instructions).
